@@ -95,6 +95,7 @@ def gen_cases(ctx, flags, n_random, n_sign):
             "value": gen.u64(r),
             "key": key.to_bytes(32, "big").hex(),
             "compressed": r.random() < 0.5,
+            "nonce": (r.choice([1, 2, ec.N - 1]) if r.random() < 0.2 else r.randrange(1, ec.N)).to_bytes(32, "big").hex() if r.random() < 0.35 else None,
         }
 
 
@@ -146,7 +147,11 @@ def judge(ctx, case, forkid):
             if r["ok"]["preimage2"] != got:
                 ctx.viol("%s preimage changes when the same call is repeated on the same object" % name, {})
     else:
-        r = ctx.call({"op": "tx_sign", "tx": case["tx"], "flag": flag, "idx": idx, "script": case["script"], "value": val, "key": case["key"], "compressed": case["compressed"]})
+        sreq = {"op": "tx_sign", "tx": case["tx"], "flag": flag, "idx": idx, "script": case["script"], "value": val, "key": case["key"], "compressed": case["compressed"]}
+        if case.get("nonce"):
+            sreq["k"] = case["nonce"]
+            ctx.hit("sign_with_k")
+        r = ctx.call(sreq)
         ctx.ev()
         ctx.hit("sign")
         if oob:
@@ -173,6 +178,14 @@ def judge(ctx, case, forkid):
             ctx.viol("%s signature does not verify against sha256d(specified preimage) under the signer's key" % name, {"sig": sb.hex()})
         if rs[1] > ec.HALF_N:
             ctx.viol("%s signature has high S" % name, {})
+        if case.get("nonce"):
+            e = ec.sign_with_k(x, z, int(case["nonce"], 16))
+            if e is not None and (rs[0], rs[1]) != (e[0], e[1]):
+                ctx.note("%s Transaction::sign_with_k signature differs from the reference signature for that nonce (informational: the statement only requires that it verifies)" % name)
+        else:
+            e = ec.sign_det(x, wire.sha256d(exp), wire.sha256d(exp)[::-1])
+            if (rs[0], rs[1]) != (e[0], e[1]):
+                ctx.note("%s Transaction::sign signature is not the RFC 6979 (reversed-nonce-digest) signature (informational: the statement only requires that it verifies)" % name)
         if not r["ok"]["verify"]:
             ctx.viol("%s Transaction::verify rejects the signature it just produced" % name, {})
         if not r["ok"]["sig_hex_eq"]:
